@@ -149,16 +149,10 @@ func writeDisk(root string) (*disk, error) {
 		}
 		var sb strings.Builder
 		sb.WriteString("<?php\nnamespace N;\n")
-		for di, dc := range f.decls {
+		for _, dc := range f.decls {
 			switch dc.kind {
 			case "c":
-				// the include files spell their classes in every way the parser registers through
-				// AddClass at parse time (class_parser, abstract_class_parser, trait_parser, enum_parser)
-				sp := "class"
-				if isIncFile(i) {
-					sp = []string{"class", "abstract class", "final class", "trait", "enum"}[(i+di)%5]
-				}
-				fmt.Fprintf(&sb, "%s %s {}\n", sp, short(dc.name))
+				fmt.Fprintf(&sb, "class %s {}\n", short(dc.name))
 			case "i":
 				fmt.Fprintf(&sb, "interface %s {}\n", short(dc.name))
 			case "n":
@@ -716,6 +710,20 @@ func (w *world) scriptBody(o op, k int) string {
 		}
 	}
 	return sb.String()
+}
+
+// runBody runs a script text on v through LoadAndRun ("" = it ran through)
+func (w *world) runBody(v data.VM, body string) string {
+	path := filepath.Join(w.d.scripts, fmt.Sprintf("w%d.php", w.step))
+	w.step++
+	if w.d.wrote[path] != body {
+		os.WriteFile(path, []byte(body), 0o644)
+		w.d.wrote[path] = body
+	}
+	if out := w.runFile(v, path); out != "" {
+		return out
+	}
+	return "ok"
 }
 
 // execScript runs the script of a script route on its VM through LoadAndRun
@@ -1564,6 +1572,124 @@ func (r *runner) scriptStream() {
 	}
 }
 
+// ------------------------------------------------------------ flavour stream
+//
+// Every declaration form the parser registers at parse time (class_parser,
+// abstract_class_parser, trait_parser, enum_parser, interface_parser all end in
+// p.vm.AddClass / p.vm.AddInterface), through every route that parses code, on the base and
+// on a TempVM; plus a class named by an attribute (parse-time GetOrLoadClass through the
+// parser's VM). Outside the Lean model (its files declare plain classes and `new` /
+// `extends` of such a name would need the flavour); judged by the snapshot oracle: a
+// declaration through TempVM 0 is resolved by TempVM 0 and by nobody else, one through the
+// base by everybody.
+
+var flavours = []struct{ tag, decl, name string }{
+	{"class", "class FlClass {}", `N\FlClass`},
+	{"abstract", "abstract class FlAbstract {}", `N\FlAbstract`},
+	{"final", "final class FlFinal {}", `N\FlFinal`},
+	{"trait", "trait FlTrait {}", `N\FlTrait`},
+	{"enum", "enum FlEnum {}", `N\FlEnum`},
+	{"interface", "interface FlIface {}", `N\FlIface`},
+	{"attribute", "#[\\N\\C]\nclass FlAttr {}", `N\C`}, // names an autoloadable class (cls/C.php)
+}
+
+var flavourRoutes = []string{"run", "include", "eval", "parsefile"}
+
+type flavourCase struct {
+	Stream  string `json:"stream"` // "flavour"
+	Flavour int    `json:"flavour"`
+	Route   string `json:"route"`
+	V       int    `json:"v"`
+}
+
+func (w *world) extra(v data.VM) (s string) {
+	defer func() {
+		if r := recover(); r != nil {
+			s = "!"
+		}
+	}()
+	var sb strings.Builder
+	for _, f := range flavours {
+		_, c := v.GetClass(f.name)
+		_, i := v.GetInterface(f.name)
+		sb.WriteString(fmt.Sprint(b01(c), b01(i)))
+	}
+	return sb.String()
+}
+
+func (r *runner) runFlavour(fc flavourCase) {
+	d := r.d
+	fl := flavours[fc.Flavour]
+	w := newWorld(d, 2, true)
+	defer w.close()
+	code := "namespace N;\n" + fl.decl + "\n"
+	file := filepath.Join(w.incDir, "fl_"+fl.tag+".php")
+	os.WriteFile(file, []byte("<?php\n"+code), 0o644)
+	all := append([]data.VM{w.base}, w.temps...)
+	snap := func() []string {
+		out := make([]string, len(all))
+		for i, v := range all {
+			out[i] = strings.Join(w.table(v, allPool()), ",") + ";" + w.extra(v)
+		}
+		return out
+	}
+	v := w.vm(fc.V)
+	before := snap()
+	res := "ok"
+	func() {
+		defer func() {
+			if p := recover(); p != nil {
+				res = "crash"
+			}
+		}()
+		var acl data.Control
+		switch fc.Route {
+		case "run":
+			_, acl = v.LoadAndRun(file)
+		case "parsefile":
+			_, acl = v.ParseFile(file, data.NewObjectValue())
+		case "include":
+			res = w.runBody(v, "<?php\nrequire "+phpStr(file)+";\n")
+		case "eval":
+			res = w.runBody(v, "<?php\neval("+phpStr(code)+");\n")
+		}
+		if acl != nil {
+			res = "err"
+		}
+	}()
+	after := snap()
+	r.c.Eval(fmt.Sprintf("flavour;%s;%s;%d", fl.tag, fc.Route, fc.V), true)
+	vi := fc.V + 1
+	visible := after[vi] != before[vi]
+	r.c.Hit(fmt.Sprintf("flavour:%s:%s:%s:declared=%v", fl.tag, fc.Route, vmTag(fc.V), visible))
+	if fc.V >= 0 {
+		for j := range after {
+			if j != vi && after[j] != before[j] {
+				r.c.Violation("leak:flavour:"+fc.Route, fmt.Sprintf("`%s` declared through %s on TempVM %d (%s) changed what VM %s resolves: before %s after %s", fl.decl, fc.Route, fc.V, res, vmTag(j-1), before[j], after[j]), fc)
+				break
+			}
+		}
+		return
+	}
+	// through the base: whatever the base gained every TempVM resolves too
+	for j := 1; j < len(after); j++ {
+		if after[j] != after[0] {
+			r.c.Violation("hidden:flavour", fmt.Sprintf("`%s` declared through %s on the base (%s): base resolves %s, TempVM %d resolves %s", fl.decl, fc.Route, res, after[0], j-1, after[j]), fc)
+			break
+		}
+	}
+}
+
+func (r *runner) flavourStream() {
+	for fi := range flavours {
+		for _, route := range flavourRoutes {
+			for v := -1; v < 1; v++ {
+				r.runFlavour(flavourCase{Stream: "flavour", Flavour: fi, Route: route, V: v})
+			}
+		}
+	}
+}
+
 // ------------------------------------------------------------ known stream
 
 // the negation witnesses of Proofs/Properties/C12.lean, replayed on the real code
@@ -1675,7 +1801,7 @@ func checkDisk(d *disk) error {
 	return nil
 }
 
-const rule = "every sequence of exactly L operations (all shorter ones are its prefixes, judged step by step) over an alphabet {AddClass/AddInterface/AddFunc of a stub, LoadAndRun, ParseFile, GetOrLoadClass, GetOrLoadInterface, LoadPkg, discard} x {base, TempVM 0, TempVM 1} x colliding names/files, TempVM slots up to renaming; plus seeded sequences of 5..40 operations over 1 base + 4 TempVMs, 8 colliding names (2 case-variant pairs; each name used as class, interface and function) and 10 files (one missing); after every operation the resolve tables of all VMs (3 kinds x pool lookups each, identified by which definition answers) are compared with the Lean model and judged by the snapshot/bookkeeping oracle. The routes of the known finding (GetOrLoadInterface/LoadPkg through a TempVM for an autoloadable name) run in a separate stream. non-trivial = a definition through a TempVM and an operation on another VM; distinct = distinct operation sequence"
+const rule = "every sequence of exactly L operations (all shorter ones are its prefixes, judged step by step) over an alphabet {AddClass/AddInterface/AddFunc of a stub, LoadAndRun, ParseFile, GetOrLoadClass, GetOrLoadInterface, LoadPkg, discard} x {base, TempVM 0, TempVM 1} x colliding names/files, TempVM slots up to renaming; the same for the script routes — a generated script run on the VM through LoadAndRun: eval() of a declaration unit, include/include_once/require/require_once (absolute and relative path, existing and missing file), a function statement executed at run time (nested in a function, conditional, nested in a method), spl_autoload_register of a callback that includes a file, a class needed at run time (new, new $name) or at parse time (extends, trait use), define(), class_alias, scripts that define nothing (anonymous class, closure, arrow fn, run_php_file) — together with the API operations they interact with; plus seeded sequences of 5..40 operations over 1 base + 4 TempVMs, 8 colliding names (2 case-variant pairs; each name used as class, interface and function), 11 files (one missing; two names reachable only through autoload callbacks), all API operations and all script routes in every spelling; after every operation the resolve tables of all VMs (3 kinds x pool lookups each, identified by which definition answers), the call result, the ThrowControl count and the constants are compared with the Lean model and the tables judged by the snapshot/bookkeeping oracle. The routes of the known finding (GetOrLoadInterface/LoadPkg through a TempVM for a name the base's autoloader can try) run in a separate stream; every declaration form (class, abstract, final, trait, enum, interface, attribute) through every parsing route in an oracle-only stream. non-trivial = a definition through a TempVM and an operation on another VM; distinct = distinct operation sequence"
 
 func workers(c *vh.Ctx) int {
 	w := goruntime.NumCPU() / 2
@@ -1862,6 +1988,14 @@ func runShard(c *vh.Ctx, shard, nshards int) {
 			r.runScript(sc)
 			return
 		}
+		if cs.Stream == "flavour" {
+			var fc flavourCase
+			json.Unmarshal(c.ReplayRaw, &fc)
+			if fc.Flavour >= 0 && fc.Flavour < len(flavours) {
+				r.runFlavour(fc)
+			}
+			return
+		}
 		if cs.NT == 0 {
 			cs.NT = 4
 		}
@@ -1939,6 +2073,11 @@ func runShard(c *vh.Ctx, shard, nshards int) {
 
 	// ---- the same tables seen from scripts
 	r.scriptStream()
+
+	// ---- every declaration form through every parsing route (oracle only)
+	if shard == 0 {
+		r.flavourStream()
+	}
 
 	// ---- known stream
 	r.knownStream()
